@@ -178,6 +178,49 @@ def geometry_check(chk, mod):
         chk.ob(rule, tb[0] if tb else fn_, f"mpi_lengths/mpi_starts of {lay_} along axis[0]", okt,
                what if okt else (f"per-rank tables taken from {wrong}: not the {lay_} tables of the swapped process axis" if wrong else
                                  "per-rank lengths/starts tables not found"), file=rel, func=q_)
+    # received blocks sit at a uniform, padded stride in the receive buffer (as the packer laid them out), whatever their true length
+    envu2 = inline_locals(unpack)
+    lp_r = [n for n in ast.walk(unpack) if isinstance(n, ast.For) and isinstance(n.iter, ast.Call) and src(n.iter.func) == "range"
+            and isinstance(n.target, ast.Name)]
+    st_b = [n for n in ast.walk(unpack) if isinstance(n, ast.Assign) and src(n.targets[0]).replace(" ", "") == "bufRanges[0]"]
+    oko, whyo = None, "offset of the received block in the buffer not recognised"
+    if len(st_b) == 1 and lp_r:
+        rv = lp_r[0].target.id
+        v = st_b[0].value
+        for _ in range(3):
+            if isinstance(v, ast.Name):
+                loc = [n for n in ast.walk(unpack) if isinstance(n, ast.Assign) and src(n.targets[0]) == v.id]
+                if len(loc) == 1:
+                    v = loc[0].value
+                    continue
+            break
+        if isinstance(v, ast.Call) and src(v.func) == "slice" and len(v.args) == 2:
+            a0 = v.args[0]
+            for _ in range(3):
+                if isinstance(a0, ast.Name):
+                    loc = [n for n in ast.walk(unpack) if isinstance(n, ast.Assign) and src(n.targets[0]) == a0.id]
+                    if len(loc) == 1:
+                        a0 = loc[0].value
+                        continue
+                break
+            try:
+                a0x = expand(a0, {k_: v_ for k_, v_ in envu2.items() if k_ != rv})
+            except Exception:
+                a0x = a0
+            if same_expr(a0, f"layout_source.max_block_shape[axis[0]] * {rv}") or \
+                    same_expr(a0x, f"layout_source.max_block_shape[axis[0]] * {rv}"):
+                oko, whyo = True, "block r of the receive buffer starts at r x (padded block length of the concatenated axis)"
+            else:
+                t0 = src(a0).replace(" ", "")
+                if "mpi_starts" in t0 or (isinstance(a0, ast.Subscript) and isinstance(a0.value, ast.Name) and
+                                          any("mpi_starts" in src(n.value) for n in ast.walk(unpack)
+                                              if isinstance(n, ast.Assign) and src(n.targets[0]) == a0.value.id)):
+                    oko = False
+                    whyo = (f"block r is read from the receive buffer at `{src(a0)}`, the start of the block in the UNPADDED partition, but the "
+                            "sender packs every block with the padded length max_block_shape[axis[0]]: when the extent is not a multiple of "
+                            "the number of processes the blocks are read from the wrong offsets and the field is corrupted")
+    chk.ob("G1-unpacker-offset", st_b[0] if st_b else unpack, "bufRanges[0] = slice(r*max_block, r*max_block + length_r)", oko, whyo, file=rel,
+           func="LayoutHandler._rearrange_from_buffer")
     # buffer size in __init__
     cands = [(v, sl) for v, (sl, ln) in fi.prods.items()]
     envi = inline_locals(init)
@@ -187,7 +230,17 @@ def geometry_check(chk, mod):
                 and isinstance(n.value, ast.BinOp) and isinstance(n.value.op, ast.Mult):
             found = n
     if found is None:
-        raise AnalysisError("C01-G1: `buffsize = np.prod(blockshape) * <comm>.Get_size()` not found in LayoutHandler.__init__")
+        asg = [n for n in ast.walk(init) if isinstance(n, ast.Assign) and src(n.targets[0]) == "self._buffer_size"]
+        texts = " ".join(src(expand(n.value, envi)) for n in asg)
+        bad_ = None
+        if asg and "Get_size" not in texts and "max_block_shape" not in texts and "nprocs" not in texts:
+            bad_ = (f"the advertised buffer size is `{src(asg[-1].value)[:80]}`: it no longer depends on the exchange blocks. One Alltoall "
+                    "step needs (padded source block x padded destination block x communicator size) elements, which exceeds the "
+                    "largest local block whenever an extent is not a multiple of the number of processes: arrays of exactly "
+                    "bufferSize elements are then too small for the transposes")
+        chk.pat("G1-geometry-bufsize", asg[-1] if asg else init, "buffsize = np.prod(blockshape) * comm size, per connected pair", False,
+                "", bad_, file=rel, func="LayoutHandler.__init__")
+        return fp, fu
     l, r = found.value.left, found.value.right
     if not (isinstance(l, ast.Call) and src(l.func) == "np.prod"):
         l, r = r, l
